@@ -26,6 +26,7 @@ pub struct Obs {
     per_message: u64,
     pub attempts: u64,
     pre_tree: Option<Vec<u8>>,
+    lite_receiver_removed: bool,
     /// last genuine public message of each kind, for field splicing: (kind, bytes)
     last_public: Vec<(&'static str, Vec<u8>)>,
     /// genuine handshake messages of earlier epochs that were never delivered to anyone (made by a discarded clone of a
@@ -45,6 +46,34 @@ fn outsider_mutation(rng: &mut SplitMix, orig: &[u8]) -> Option<Mutation> {
 }
 
 /// Replace the bytes of one leaf field of `a` by the same field of `b` (two valid messages of one kind).
+/// A modified exported ratchet tree (`optional<Node> ratchet_tree<V>`): a flipped bit, a cut, blank nodes appended
+/// (with the vector length corrected), or the last node dropped.
+fn tree_mutation(rng: &mut SplitMix, tree: &[u8]) -> (Vec<u8>, &'static str) {
+    use crate::refmodel::tls::Reader;
+    let mut mt = tree.to_vec();
+    let content = Reader::new(tree).opaque().map(|c| c.to_vec());
+    match (rng.below(6), content) {
+        (0, Some(c)) => {
+            let k = [1usize, 2, 3, c.len().min(64)][rng.below(4) as usize];
+            let mut c = c;
+            c.extend(std::iter::repeat(0u8).take(k));
+            let mut out = vec![];
+            put_opaque(&mut out, &c);
+            (out, "blank_nodes_appended")
+        }
+        (1, _) if mt.len() > 2 => {
+            let cut = 1 + rng.below(mt.len() as u64 - 1) as usize;
+            mt.truncate(cut);
+            (mt, "truncated")
+        }
+        _ => {
+            let pos = rng.below(mt.len() as u64) as usize;
+            mt[pos] ^= 1 << rng.below(8);
+            (mt, "bit_flipped")
+        }
+    }
+}
+
 fn splice(rng: &mut SplitMix, a: &[u8], b: &[u8]) -> Option<Mutation> {
     let sa = wire::message_spans(a)?.1;
     let sb = wire::message_spans(b)?.1;
@@ -462,6 +491,108 @@ impl Obs {
         Ok(())
     }
 
+    /// Insider, structural, for ANY commit (also one that changes the tree, and for a receiver the commit removes): the
+    /// committer re-signs the content around an update path that is wrong in a way no tree model is needed for: one node too
+    /// many, one too few, a leaf with a broken signature, or its own current leaf from the tree (validly signed, but not a
+    /// commit leaf / not a fresh HPKE key). Control: the re-signed, otherwise unmodified commit gets to the confirmation tag
+    /// (or is accepted by a receiver that the commit removes, which cannot check the tag).
+    fn structural_lite(&mut self, w: &World, sender: usize, receiver: usize, genuine: &[u8]) -> CaseResult {
+        use crate::refmodel::tree::RefTreeNodes;
+        let Some(pm) = wire::parse_public_message(genuine) else { return Ok(()) };
+        let (Some(_), Some(pre_tree)) = (pm.membership_tag, self.pre_tree.clone()) else { return Ok(()) };
+        let span = |n: &str| pm.spans.iter().find(|x| x.name == n).cloned();
+        let (Some(leaf_sp), Some(nodes_sp), Some(l_sig)) = (span("commit.path.leaf_node"), span("commit.path.nodes"), span("commit.path.leaf_node.signature")) else { return Ok(()) };
+        if nodes_sp.end != pm.framed.end {
+            return Ok(());
+        }
+        let s = rk::Suite::new(w.cfg.suite);
+        let keys = w.parties[sender].g().verif_epoch_keys();
+        let ctx = w.parties[sender].g().context().mls_encode_to_vec().expect("ctx");
+        let leaf = w.parties[sender].leaf();
+        let csp = w.parties[sender].suite_provider(w.cfg.suite);
+        let mut node_raw: Vec<Vec<u8>> = vec![];
+        for i in 0.. {
+            let (Some(k), Some(c)) = (span(&format!("commit.path.nodes[{i}].encryption_key")), span(&format!("commit.path.nodes[{i}].ciphertexts"))) else { break };
+            node_raw.push(genuine[k.start..c.end].to_vec());
+        }
+        let genuine_leaf = genuine[leaf_sp.start..leaf_sp.end].to_vec();
+        let mut plans: Vec<(&'static str, Vec<u8>, Vec<Vec<u8>>, bool)> = vec![("resigned_content_only", genuine_leaf.clone(), node_raw.clone(), true)];
+        if let Some(last) = node_raw.last() {
+            let mut n = node_raw.clone();
+            n.push(last.clone());
+            plans.push(("long_update_path", genuine_leaf.clone(), n, false));
+            plans.push(("short_update_path", genuine_leaf.clone(), node_raw[..node_raw.len() - 1].to_vec(), false));
+        }
+        {
+            let mut l = genuine_leaf.clone();
+            let i = l_sig.end - 1 - leaf_sp.start - self.rng.below(8) as usize;
+            l[i] ^= 1 << self.rng.below(8);
+            plans.push(("leaf_signature_broken", l, node_raw.clone(), false));
+        }
+        if let Some(old) = RefTreeNodes::parse(&pre_tree).and_then(|t| t.leaf(leaf).cloned()) {
+            let name = match old.source {
+                1 => "own_key_package_leaf_as_path_leaf",
+                2 => "own_update_leaf_as_path_leaf",
+                _ => "own_previous_commit_leaf_as_path_leaf",
+            };
+            plans.push((name, old.raw.clone(), node_raw.clone(), false));
+        }
+        let removed_here = |r: &Result<mls_rs::group::ReceivedMessage, OpErr>| matches!(r, Ok(mls_rs::group::ReceivedMessage::Commit(d)) if matches!(d.effect, mls_rs::group::CommitEffect::Removed { .. }));
+        for (name, new_leaf, nodes_v, control) in plans {
+            let mut framed = genuine[pm.framed.start..leaf_sp.start].to_vec();
+            framed.extend_from_slice(&new_leaf);
+            let mut nodes = vec![];
+            for raw in &nodes_v {
+                nodes.extend_from_slice(raw);
+            }
+            put_opaque(&mut framed, &nodes);
+            let mut ftbs = vec![];
+            ftbs.extend_from_slice(&pm.version.to_be_bytes());
+            ftbs.extend_from_slice(&1u16.to_be_bytes());
+            ftbs.extend_from_slice(&framed);
+            ftbs.extend_from_slice(&ctx);
+            let mut sc = vec![];
+            put_opaque(&mut sc, b"MLS 1.0 FramedContentTBS");
+            put_opaque(&mut sc, &ftbs);
+            let Ok(fsig) = mls_rs::CipherSuiteProvider::sign(&csp, &w.parties[sender].signer, &sc) else { return Ok(()) };
+            let mut auth = vec![];
+            put_opaque(&mut auth, &fsig);
+            put_opaque(&mut auth, pm.confirmation_tag.unwrap_or_default());
+            let mut out = vec![];
+            out.extend_from_slice(&pm.version.to_be_bytes());
+            out.extend_from_slice(&1u16.to_be_bytes());
+            out.extend_from_slice(&framed);
+            out.extend_from_slice(&auth);
+            let tag = rk::membership_tag(&s, &keys.key_schedule.membership_key, pm.version, 1, &framed, &ctx, &auth);
+            put_opaque(&mut out, &tag);
+            if control {
+                let t = w.now();
+                let mut clone = w.parties[receiver].g().clone();
+                let r = guard(|| clone.process_incoming_message_with_time(MlsMessage::from_bytes(&out)?, t));
+                if removed_here(&r) {
+                    self.lite_receiver_removed = true;
+                    self.ev.class("structural_lite_control:accepted_by_removed_receiver");
+                    continue;
+                }
+                self.lite_receiver_removed = false;
+                match r.map(|_| ()) {
+                    Ok(()) => self.ev.class("structural_lite_control:accepted"),
+                    Err(e) if e.is_panic() => return Err(panic_failure(P, "process_incoming_message(re-signed commit)", &e)),
+                    Err(e) if e.class() == "InvalidConfirmationTag" => self.ev.class("structural_lite_control:reached_confirmation_tag"),
+                    Err(e) => {
+                        self.ev.class(&format!("structural_lite_control_failed:{}", e.class()));
+                        return Ok(());
+                    }
+                }
+                continue;
+            }
+            let mu = Mutation { bytes: out.clone(), label: format!("insider:{name} (lite, {} of {} path nodes)", nodes_v.len(), node_raw.len()), field: format!("insider_lite_{name}") };
+            self.must_reject(w, receiver, &out, "public_commit", &mu)?;
+            self.ev.class(&format!("insider_forgeries_lite:{name}:{}", if self.lite_receiver_removed { "receiver_removed_by_the_commit" } else { "receiver_stays" }));
+        }
+        Ok(())
+    }
+
     /// Insider, complete: the committer builds whole commits by hand with the reference model (see `forge.rs`). The honest
     /// one must be accepted and lead to the predicted epoch authenticator; each tampered one differs in exactly one respect.
     fn full_forgeries(&mut self, w: &World, sender: usize, receiver: usize, genuine: &[u8]) -> CaseResult {
@@ -703,19 +834,18 @@ impl Obs {
                 // a modified out-of-band tree
                 if let Some(tb) = &info.tree_oob {
                     for _ in 0..self.per_message / 2 {
-                        let mut mt = tb.clone();
-                        let pos = self.rng.below(mt.len() as u64) as usize;
-                        mt[pos] ^= 1 << self.rng.below(8);
+                        let (mt, how) = tree_mutation(&mut self.rng, tb);
+                        let pos = mt.len();
                         self.attempts += 1;
                         self.ev.eval(1);
                         let r = guard(|| party.client.join_group(Some(ExportedTree::from_bytes(&mt)?), &MlsMessage::from_bytes(wb)?, Some(t)).map(|_| ()));
                         match r {
                             Err(e) if e.is_panic() => return Err(panic_failure(P, "join_group(modified tree)", &e)),
                             Err(e) => {
-                                self.ev.class(&format!("rejected:ratchet_tree:{}", e.class()));
+                                self.ev.class(&format!("rejected:ratchet_tree:{how}:{}", e.class()));
                                 self.ev.nontrivial(&("tree", pos, j, w.epoch));
                             }
-                            Ok(()) => return Err(fail("modified_ratchet_tree_accepted", format!("joiner {j}: bit flipped at byte {pos} of {}", mt.len()))),
+                            Ok(()) => return Err(fail(&format!("modified_ratchet_tree_accepted|{how}"), format!("joiner {j}: tree {how} ({} -> {pos} bytes): {}", tb.len(), hex::encode(&mt[..mt.len().min(200)])))),
                         }
                     }
                 }
@@ -764,6 +894,30 @@ impl Obs {
                     ext.observe_group(MlsMessage::from_bytes(&mu.bytes)?, tr, Some(t)).map(|_| ())
                 })
             };
+            // ... and the genuine GroupInfo with a modified out-of-band tree
+            if let Some(tb) = &tree {
+                let (mt, how) = tree_mutation(&mut self.rng, tb);
+                self.attempts += 1;
+                self.ev.eval(1);
+                let r2 = if i % 2 == 0 {
+                    guard(|| party.client.external_commit_builder()?.commit_time(t).with_tree_data(ExportedTree::from_bytes(&mt)?.into_owned()).build(MlsMessage::from_bytes(&gib)?).map(|_| ()))
+                } else {
+                    guard(|| ext.observe_group(MlsMessage::from_bytes(&gib)?, Some(ExportedTree::from_bytes(&mt)?), Some(t)).map(|_| ()))
+                };
+                match r2 {
+                    Err(e) if e.is_panic() => return Err(panic_failure(P, "commit_external/observe_group(modified tree)", &e)),
+                    Err(e) => {
+                        self.ev.class(&format!("rejected:ratchet_tree_for_group_info:{how}:{}", e.class()));
+                        self.ev.nontrivial(&("tree_gi", mt.len(), how, w.epoch));
+                    }
+                    Ok(()) => {
+                        return Err(fail(
+                            &format!("modified_ratchet_tree_accepted|{how}"),
+                            format!("{}: tree {how} ({} -> {} bytes): {}", if i % 2 == 0 { "commit_external" } else { "observe_group" }, tb.len(), mt.len(), hex::encode(&mt[..mt.len().min(200)])),
+                        ))
+                    }
+                }
+            }
             match r {
                 Err(e) if e.is_panic() => return Err(panic_failure(P, "commit_external/observe_group(modified GroupInfo)", &e)),
                 Err(e) => {
@@ -864,6 +1018,7 @@ impl Observer for Obs {
             if let Some(c) = committer {
                 self.insider(w, c, &[m], bytes, kind)?;
                 self.structural(w, c, m, bytes)?;
+                self.structural_lite(w, c, m, bytes)?;
                 self.full_forgeries(w, c, m, bytes)?;
             }
         }
@@ -943,7 +1098,7 @@ pub fn run(ctx: &Ctx) -> ! {
          Non-trivial = rejection by an authentication / validation check (error class other than decode, group id, version, epoch); distinct by (message kind, mutation, receiver, epoch).",
         &hp,
         spec,
-        &|case, ev| Obs { ev, rng: SplitMix::new(((case.c(7) as u64) << 16) | case.c(8) as u64, 3), per_message, attempts: 0, pre_tree: None, last_public: vec![], withheld: vec![] },
+        &|case, ev| Obs { ev, rng: SplitMix::new(((case.c(7) as u64) << 16) | case.c(8) as u64, 3), per_message, attempts: 0, pre_tree: None, lite_receiver_removed: false, last_public: vec![], withheld: vec![] },
         &|_, o| {
             o.ev.class_n("mutation_attempts", o.attempts);
             false
